@@ -137,6 +137,17 @@ pub fn run(cfg: &Cfg, seed: u64) -> (Arc<World>, crate::sim::SimStats) {
                 sim.drop_after_polls(a, k);
             }
         }
+        // a backend whose readiness fails for a moment and then recovers
+        if seed % 7 == 0 {
+            let at = 1000 * ((seed >> 8) % 40);
+            let k = 1 + (seed >> 16) % 3;
+            sim.at(at, What::Do(Box::new(move |w: &Arc<World>| {
+                w.ready_faults.store(k, std::sync::atomic::Ordering::SeqCst);
+                w.note(format!("the next {k} readiness polls of the wrapped service fail"));
+            })));
+            // whatever is left of the fault is over before the capacity probe
+            sim.at(T_CANCEL, What::Do(Box::new(|w: &Arc<World>| w.ready_faults.store(0, std::sync::atomic::Ordering::SeqCst))));
+        }
         let n_hist = sim.n_actors();
         for a in 0..n_hist {
             sim.at_ordered(T_CANCEL, What::Drop(a));
